@@ -13,6 +13,9 @@ import (
 
 func history(r drv.Rand, idx int) *h.World {
 	w := h.NewWorld(r)
+	if r.Chance(1, 3) { // end users with long subjects (up to the 255 characters of OIDC Core and beyond): long opaque tokens
+		w.WithLongSubjects()
+	}
 	fixed := opfix.Router(idx % 2)
 	mixed := r.Chance(1, 3)
 	if mixed {
@@ -35,6 +38,27 @@ func history(r drv.Rand, idx int) *h.World {
 	}
 	for i, n := 0, 4+r.IntN(7); i < n; i++ {
 		rt := w.Router(fixed, mixed)
+		if len(w.LongSubs) > 0 && r.Chance(1, 6) {
+			// one token of a long-subject user at every reading endpoint of BOTH routers: what the
+			// endpoints make of a string does not depend on its length, and they agree
+			var long []*h.Tok
+			for _, t := range w.PoolOf("opaque-at", "jwt-at") {
+				if len(t.Sub) >= 20 {
+					long = append(long, t)
+				}
+			}
+			if len(long) > 0 {
+				t := drv.Pick(r, long)
+				w.Tags["seq=long-token-everywhere"] = true
+				w.Tags["use="+t.Kind] = true
+				for _, x := range []opfix.Router{rt, opfix.Router(1 - int(rt))} {
+					w.UserInfo(x, t)
+					w.Introspect(x, h.BasicCred(t.Client), t)
+				}
+				w.UseEverywhere(fixed, mixed, t)
+				continue
+			}
+		}
 		switch k := r.IntN(22); {
 		case k >= 20:
 			w.RSIntrospection(rt)
@@ -81,6 +105,26 @@ func history(r drv.Rand, idx int) *h.World {
 				w.UseEverywhere(fixed, mixed, t)
 			}
 			w.Revoke(rt, c, t, hint)
+			if r.Chance(1, 3) {
+				// the same token string at the revocation endpoint AGAIN (a retry, a second client): every
+				// request is judged on its own - a refused or failed attempt changes nothing for the next
+				// one, the owner's revocation after it is effective, a repetition by a foreign client is
+				// refused again (or answers 200 once the token is gone)
+				c2, ck2 := w.CredAround(t.Client, false)
+				if owner := h.ClientByID(t.Client); owner != nil && r.Chance(1, 2) {
+					c2, ck2 = h.GoodCred(owner.ID), "owner"
+				}
+				rt2 := rt
+				if r.Chance(1, 4) {
+					rt2 = w.Router(fixed, mixed)
+				}
+				w.Tags["seq=revoke-again"] = true
+				w.Tags["revoke-by="+ck2] = true
+				if r.Chance(1, 3) {
+					w.UseEverywhere(fixed, mixed, t)
+				}
+				w.Revoke(rt2, c2, t, drv.Pick(r, []string{hint, hint, ""}))
+			}
 			w.UseEverywhere(fixed, mixed, t)
 		case k < 15:
 			// end_session variants: with / without id_token_hint x with / without client_id (the
@@ -172,7 +216,7 @@ func main() {
 		wr.Add(emit.Case{Input: w.Input(), Observed: w.Observed(), Tags: w.TagList(), Human: w.Log})
 	}
 	err := wr.Close(emit.Meta{Property: "C08", Tier: cfg.Tier, Seed: cfg.Seed,
-		Rule: "one case = one history on a fresh provider (refstore; both routers share it): 1-3 code flows (clients web/native opaque, web2/spa JWT, webx/web2x with negative lifetimes = expired tokens; subjects incl. one with a colon), then 4-10 operations drawn from userinfo / introspect / revoke (owner, foreign, public, bad, no credentials; with and without token_type_hint); callers at introspection / revocation / exchange present themselves as owner, foreign client, two identities, or name a registered client (confidential, public, private_key_jwt) without proving its credential (id only, empty / blank / keyword / near-miss secrets, near-miss ids, failing assertions); what the storage holds as secret of secret-less clients is a world dimension (empty string compared plainly, or unmatchable); sequences: introspection repeated without the proof, two callers on one token in both orders, use-revoke-use / end_session (with / without id_token_hint x with / without client_id, on storages with and without CanTerminateSessionFromRequest that find the end user in the request context; the session's tokens are used before and after) / token exchange / further flows, each use presenting an issued token (70%) or an adversarial string (bit flips, re-sealed under another key, forged plaintexts, raw ids, JWTs of another issuer / key / expired / tampered, garbage); every revocation and logout is followed by uses of the token at the other endpoints. Non-trivial = at least one request of the history was honoured (path class != 0); distinct = distinct (input, path class).",
+		Rule: "one case = one history on a fresh provider (refstore; both routers share it): 1-3 code flows (clients web/native opaque, web2/spa JWT, webx/web2x with negative lifetimes = expired tokens; subjects incl. one with a colon; a third of the worlds have end users with LONG subjects - 20 to 700 characters, half of them around the 255 of OIDC Core, plain / URL / DID / e-mail style - whose opaque tokens are correspondingly long, presented at every reading endpoint of both routers, and long adversarial strings: sealed texts with a long subject under a live / dead / long id, without colon, under another key, long garbage), then 4-10 operations drawn from userinfo / introspect / revoke (owner, foreign, public, bad, no credentials; with and without token_type_hint); callers at introspection / revocation / exchange present themselves as owner, foreign client, two identities, or name a registered client (confidential, public, private_key_jwt) without proving its credential (id only, empty / blank / keyword / near-miss secrets, near-miss ids, failing assertions); what the storage holds as secret of secret-less clients is a world dimension (empty string compared plainly, or unmatchable); sequences: a revocation followed by another revocation of the same string (owner after a refused attempt, the same caller twice, a foreign client after the owner), introspection repeated without the proof, two callers on one token in both orders, use-revoke-use / end_session (with / without id_token_hint x with / without client_id, on storages with and without CanTerminateSessionFromRequest that find the end user in the request context; the session's tokens are used before and after) / token exchange / further flows, each use presenting an issued token (70%) or an adversarial string (bit flips, re-sealed under another key, forged plaintexts, raw ids, JWTs of another issuer / key / expired / tampered, garbage); every revocation and logout is followed by uses of the token at the other endpoints. Non-trivial = at least one request of the history was honoured (path class != 0); distinct = distinct (input, path class).",
 	})
 	if err != nil {
 		fmt.Fprintln(os.Stderr, err)
